@@ -88,7 +88,7 @@ func (w *world) project(i int) NodeState {
 		st.Ph = "PM"
 	}
 	if b.Block != nil {
-		st.Blk = w.tagOf[hex.EncodeToString(blockHash(b.Block))]
+		st.Blk = w.tagOf[hex.EncodeToString(blockHash(b.Block))+hex.EncodeToString(b.Results.Hash())]
 		if st.Blk == "" {
 			st.Blk = "?"
 		}
@@ -98,7 +98,7 @@ func (w *world) project(i int) NodeState {
 	}
 	if q := b.HighQC; q != nil {
 		st.Lock = QCRec{Some: true, RH: q.Header.RootHeight, Rnd: q.Header.Round, Ph: qcOfPhase[q.Header.Phase],
-			Val: w.tagOf[hex.EncodeToString(q.BlockHash)], Ldr: w.nameOfKey(q.ProposerKey)}
+			Val: w.tagOf[hex.EncodeToString(q.BlockHash)+hex.EncodeToString(q.ResultsHash)], Ldr: w.nameOfKey(q.ProposerKey)}
 	}
 	w.mu.Lock()
 	if tag, ok := w.commits[i]; ok {
@@ -127,7 +127,7 @@ func (w *world) bareQC(q QCRec) (*lib.QuorumCertificate, error) {
 		if !ok {
 			return nil, fmt.Errorf("unknown value %q", q.Val)
 		}
-		qc.BlockHash, qc.ResultsHash = blockHash(blk), w.results.Hash()
+		qc.BlockHash, qc.ResultsHash = blockHash(blk), w.resOf[q.Val].Hash()
 	}
 	return qc, nil
 }
@@ -174,7 +174,7 @@ func (w *world) buildQC(q QCRec, withBlock bool) (*lib.QuorumCertificate, error)
 	}
 	qc.Signature = &lib.AggregateSignature{Signature: sig, Bitmap: mk.Bitmap()}
 	if withBlock && q.Ph != "EV" {
-		qc.Block, qc.Results = w.values[q.Val], w.results
+		qc.Block, qc.Results = w.values[q.Val], w.resOf[q.Val]
 	}
 	return qc, nil
 }
@@ -214,8 +214,8 @@ func (w *world) byzMsg(m *MsgRec) (*bft.Message, error) {
 		return nil, fmt.Errorf("unknown value %q", m.Val)
 	}
 	if m.Ph == "P" {
-		qc.Block, qc.Results = blk, w.results
-		qc.BlockHash, qc.ResultsHash = blockHash(blk), w.results.Hash()
+		qc.Block, qc.Results = blk, w.resOf[m.Val]
+		qc.BlockHash, qc.ResultsHash = blockHash(blk), w.resOf[m.Val].Hash()
 		if m.HQ.Some {
 			hq, e := w.buildQC(m.HQ, true)
 			if e != nil {
